@@ -297,14 +297,49 @@ func ruleSchemaCanonical(c *core.Ctx) {
 	usesQualified := false
 	ast.Inspect(d.Body, func(n ast.Node) bool {
 		if ce, ok := n.(*ast.CallExpr); ok {
-			if f := core.Callee(info, ce); f != nil && sortFuncs[core.FullName(f)] && len(ce.Args) >= 1 && strings.HasSuffix(types.ExprString(ce.Args[0]), ".Types") {
-				sorted = true
-				ast.Inspect(ce, func(m ast.Node) bool {
-					if se, ok := m.(*ast.SelectorExpr); ok && se.Sel.Name == "GetQualifiedName" {
-						usesQualified = true
+			if f := core.Callee(info, ce); f != nil && sortFuncs[core.FullName(f)] && len(ce.Args) >= 1 {
+				// the list of the schema's types: the Types field itself, or a local []TypeDefinition that becomes it
+				isTypes := strings.HasSuffix(types.ExprString(ce.Args[0]), ".Types")
+				if sl, ok := info.TypeOf(ce.Args[0]).Underlying().(*types.Slice); ok && !isTypes {
+					if nt := core.NamedOf(sl.Elem()); nt != nil && nt.Obj().Name() == "TypeDefinition" {
+						isTypes = true
 					}
+				}
+				if !isTypes {
 					return true
-				})
+				}
+				sorted = true
+				var mentions func(node ast.Node, depth int)
+				mentions = func(node ast.Node, depth int) {
+					ast.Inspect(node, func(m ast.Node) bool {
+						switch x := m.(type) {
+						case *ast.SelectorExpr:
+							if x.Sel.Name == "GetQualifiedName" {
+								usesQualified = true
+							}
+						case *ast.CallExpr:
+							if depth < 2 {
+								// a key helper: a function of the package or a local closure
+								if g := core.Callee(info, x); g != nil && g.Pkg() == p.Types {
+									if fd := c.Decl(g); fd != nil && fd.Body != nil {
+										mentions(fd.Body, depth+1)
+									}
+								} else if id, ok := x.Fun.(*ast.Ident); ok {
+									ast.Inspect(d.Body, func(q ast.Node) bool {
+										if as, ok := q.(*ast.AssignStmt); ok && len(as.Lhs) == 1 && len(as.Rhs) == 1 && identObj(info, as.Lhs[0]) == identObj(info, id) {
+											if fl, ok := as.Rhs[0].(*ast.FuncLit); ok {
+												mentions(fl.Body, depth+1)
+											}
+										}
+										return true
+									})
+								}
+							}
+						}
+						return true
+					})
+				}
+				mentions(ce, 0)
 			}
 		}
 		return true
